@@ -383,4 +383,14 @@ def readCore (E : Ext) (f : Fits) : Except RErr Table :=
     | .ok extents =>
     .ok ⟨order, knots, naxes, strides, coef, some extents, some periods, aux⟩
 
+/-! ## vocabulary of the property statements -/
+
+/-- row-major strides: `strides[i] = Π_{j>i} naxes[j]` -/
+def rowMajor : List Nat → List Nat
+  | [] => []
+  | _ :: as => prod as :: rowMajor as
+
+/-- trailing-blank padding to 8 characters (what FITS does to short string values) -/
+def pad8 (v : Str) : Str := v ++ List.replicate (8 - v.length) ' '
+
 end PsV.Fits
